@@ -1733,6 +1733,101 @@ def render_render() -> str:
     return "\n".join(lines)
 
 
+# ---------------------------------------------------------------------------------------------
+# generate_schema_predicate (koda_validate/serialization/json_schema.py) -> Koda.GArm (lean/KodaModel/PySchemaPred.lean)
+
+OUT_SCHEMAPRED = os.path.join(os.path.dirname(OUT), "SchemaPredSrc.lean")
+GCLS = {"EmailPredicate": "email", "MaxLength": "maxLength", "MinLength": "minLength", "ExactLength": "exactLength",
+        "Choices": "choices", "NotBlank": "notBlank", "RegexPredicate": "regex", "StartsWith": "startsWith",
+        "EndsWith": "endsWith", "Min": "min", "Max": "max", "EqualTo": "equalTo", "MinKeys": "minKeys", "MaxKeys": "maxKeys",
+        "MinItems": "minItems", "MaxItems": "maxItems", "UniqueItems": "uniqueItems", "MultipleOf": "multipleOf",
+        "ExactItemCount": "exactItemCount"}
+BOUND_TEMPLATE = ["{T} = type(pred.{A})",
+                  "if {T} is Decimal:\n    {M} = str(pred.{A})\nelif {T} is date or {T} is datetime:\n"
+                  "    {M} = pred.{A}.isoformat()\nelse:\n    {M} = pred.{A}",
+                  "if {T} in {{Decimal, date, datetime}}:\n    return {{'{FE}': {M}}} if pred.{E} else {{'{FI}': {M}}}\n"
+                  "else:\n    return {{'{KE}': {M}}} if pred.{E} else {{'{KI}': {M}}}"]
+SCHEMA_PINS = ["_enum_value", "unhandled_type", "_add_predicate_schema"]
+
+
+def _gret(cls: str, body: List[ast.stmt], fields: Dict[str, List[str]]) -> str:
+    fs = fields.get(cls, [])
+    if len(body) == 1 and isinstance(body[0], ast.Return) and isinstance(body[0].value, ast.Dict):
+        d = body[0].value
+        if not all(isinstance(k, ast.Constant) and isinstance(k.value, str) for k in d.keys):
+            return f"(.unsupported {unsupported(d)})"
+        keys = [k.value for k in d.keys]
+        vals = [ast.unparse(v) for v in d.values]
+        if len(keys) == 1 and isinstance(d.values[0], ast.Constant) and isinstance(d.values[0].value, str):
+            return f"(.const {lstr(keys[0])} {lstr(d.values[0].value)})"
+        if len(keys) == 1 and isinstance(d.values[0], ast.Constant) and d.values[0].value is True:
+            return f"(.flagTrue {lstr(keys[0])})"
+        if len(fs) == 1 and all(v == f"pred.{fs[0]}" for v in vals) and fs[0] in ("length", "item_count", "size"):
+            return "(.attrInt [" + ", ".join(lstr(k) for k in keys) + "])"
+        if len(keys) == 1:
+            forms = {"[_enum_value(choice) for choice in sorted(pred.choices)]": ("enumSortedChoices", ["choices"]),
+                     "pred.pattern.pattern": ("patternSrc", ["pattern"]),
+                     "f'^{re.escape(pred.prefix)}'": ("prefixPat", ["prefix"]),
+                     "f'{re.escape(pred.suffix)}$'": ("suffixPat", ["suffix"]),
+                     "[_enum_value(pred.match)]": ("enumMatch", ["match"])}
+            if vals[0] in forms and forms[vals[0]][1] == fs:
+                return f"(.{forms[vals[0]][0]} {lstr(keys[0])})"
+        return f"(.unsupported {unsupported(d)})"
+    if len(body) == 3 and len(fs) == 2:
+        try:
+            a0, i2 = body[0], body[2]
+            T = a0.targets[0].id
+            A = a0.value.args[0].attr
+            M = body[1].body[0].targets[0].id
+            r1, r2 = i2.body[0].value, i2.orelse[0].value
+            E = r1.test.attr
+            FE, FI = r1.body.keys[0].value, r1.orelse.keys[0].value
+            KE, KI = r2.body.keys[0].value, r2.orelse.keys[0].value
+            want = [t.format(T=T, A=A, M=M, E=E, FE=FE, FI=FI, KE=KE, KI=KI) for t in BOUND_TEMPLATE]
+            if [ast.unparse(b) for b in body] == want and [A, E] == fs:
+                return f"(.bound {lstr(KE)} {lstr(KI)} {lstr(FE)} {lstr(FI)})"
+        except (AttributeError, IndexError, TypeError):
+            pass
+    return '(.unsupported "arm body")'
+
+
+def render_schemapred() -> str:
+    lines = ["/- GENERATED by harness/pysrc.py from the current source of /repo/koda_validate — do not edit -/",
+             "import KodaModel.PySchemaPred", "", "namespace Koda.Src", ""]
+    fields = {name: flds for name, _, _, flds in collect()}
+    g = _find_function("serialization/json_schema.py", "generate_schema_predicate")
+    arms: List[str] = []
+    else_unhandled = False
+    body = [b for b in (g.body if g is not None else []) if not (isinstance(b, ast.Expr) and isinstance(b.value, ast.Constant))]
+    node = body[0] if g is not None and len(body) == 1 and [a.arg for a in g.args.args] == ["pred"] else None
+    if node is None:
+        arms.append('{ cls := .other "<signature / body shape>", ret := .unsupported "" }')
+    while isinstance(node, ast.If):
+        t = node.test
+        if (isinstance(t, ast.Call) and ast.unparse(t.func) == "isinstance" and len(t.args) == 2
+                and ast.unparse(t.args[0]) == "pred" and isinstance(t.args[1], ast.Name)):
+            cn = t.args[1].id
+            cls = "." + GCLS[cn] if cn in GCLS else f"(.other {lstr(cn)})"
+            arms.append(f"{{ cls := {cls}, ret := {_gret(cn, node.body, fields)} }}")
+        else:
+            arms.append(f"{{ cls := .other {lstr(ast.unparse(t))}, ret := .unsupported \"test\" }}")
+        if len(node.orelse) == 1 and isinstance(node.orelse[0], ast.If):
+            node = node.orelse[0]
+        else:
+            else_unhandled = [ast.unparse(x) for x in node.orelse] == ["unhandled_type(pred)"]
+            node = None
+    lines += ["def genSchemaPredicate : GenSchemaPredSrc :=", "  { arms := [" + ",\n      ".join(arms) + "],",
+              f"    elseUnhandled := {'true' if else_unhandled else 'false'} }}", ""]
+    pins: List[str] = []
+    for name in SCHEMA_PINS:
+        h = _find_function("serialization/json_schema.py", name)
+        pins.append(f"{name}: " + (" ; ".join(ast.unparse(b) for b in h.body
+                                              if not (isinstance(b, ast.Expr) and isinstance(b.value, ast.Constant)))
+                                   if h is not None else "<not found>"))
+    lines += ["def schemaPins : List String := [" + ",\n  ".join(lstr(x) for x in pins) + "]", "", "end Koda.Src", ""]
+    return "\n".join(lines)
+
+
 def render() -> str:
     found = collect()
     lines = ["/- GENERATED by harness/pysrc.py from the current source of /repo/koda_validate — do not edit -/",
@@ -1751,7 +1846,7 @@ def render() -> str:
 
 def regenerate() -> bool:
     changed = False
-    for path, new in ((OUT, render()), (OUT_COERCE, render_coerce()), (OUT_SCALAR, render_scalar()), (OUT_UNION, render_union()), (OUT_LIST, render_list()), (OUT_WRAP, render_wrap()), (OUT_EQ, render_eq()), (OUT_CACHE, render_cache()), (OUT_SEQ, render_seq()), (OUT_NTUPLE, render_ntuple()), (OUT_MAP, render_map()), (OUT_DICTANY, render_dictany()), (OUT_CONGR, render_congr()), (OUT_RENDER, render_render())):
+    for path, new in ((OUT, render()), (OUT_COERCE, render_coerce()), (OUT_SCALAR, render_scalar()), (OUT_UNION, render_union()), (OUT_LIST, render_list()), (OUT_WRAP, render_wrap()), (OUT_EQ, render_eq()), (OUT_CACHE, render_cache()), (OUT_SEQ, render_seq()), (OUT_NTUPLE, render_ntuple()), (OUT_MAP, render_map()), (OUT_DICTANY, render_dictany()), (OUT_CONGR, render_congr()), (OUT_RENDER, render_render()), (OUT_SCHEMAPRED, render_schemapred())):
         old = open(path).read() if os.path.exists(path) else None
         if new != old:
             with open(path, "w") as f:
